@@ -210,6 +210,13 @@ func execStmts(stmts []*bstmt, env *benv) ctrl {
 				return ctrl{thr: t}
 			}
 			env.yields = append(env.yields, v)
+		case "dofinally":
+			// the finally block runs exactly once on every way out of the body
+			r := execStmts(s.Then, env)
+			env.vars[s.Var] = new(big.Int).Add(env.vars[s.Var], big.NewInt(1))
+			if r.ret != nil || r.thr != nil {
+				return r
+			}
 		}
 	}
 	return ctrl{}
@@ -252,6 +259,10 @@ func emitStmts(b *strings.Builder, stmts []*bstmt, ind string, yieldMode string)
 			fmt.Fprintf(b, "%sthrow unchecked %s if %s\n", ind, s.E.src(), s.Cond.src())
 		case "trycall":
 			fmt.Fprintf(b, "%sdo\n%s  %s = %s\n%scatch Int() as e\n%s  %s = e + 1000\n%send\n", ind, ind, s.Var, s.E.src(), ind, ind, s.Var, ind)
+		case "dofinally":
+			fmt.Fprintf(b, "%sdo\n", ind)
+			emitStmts(b, s.Then, ind+"  ", yieldMode)
+			fmt.Fprintf(b, "%sfinally\n%s  %s = %s + 1\n%send\n", ind, ind, s.Var, s.Var, ind)
 		case "yield":
 			if yieldMode == "list" {
 				fmt.Fprintf(b, "%sout << %s\n", ind, s.E.src())
@@ -325,6 +336,17 @@ func (g *bodyGen) stmts(n int, depth int) []*bstmt {
 				g.vars = g.vars[:saved]
 			}
 			out = append(out, s)
+		case k == 12 && depth > 0 && g.r.Chance(0.5):
+			// do ... finally around statements that may suspend (yield, awaited helper calls),
+			// return early or throw
+			fz := fmt.Sprintf("z%d", g.nv)
+			g.nv++
+			out = append(out, &bstmt{Kind: "let", Var: fz, E: &bexpr{Op: "lit", Lit: 0}})
+			saved := len(g.vars)
+			body := g.stmts(g.r.Range(1, 3), depth-1)
+			g.vars = g.vars[:saved]
+			out = append(out, &bstmt{Kind: "dofinally", Var: fz, Then: body})
+			g.vars = append(g.vars, fz)
 		case k < 14 && depth > 0 && g.loops < 2:
 			g.loops++
 			iv := fmt.Sprintf("i%d", g.nv)
